@@ -48,6 +48,55 @@ def _state_fact(fact, var, member):
     return False
 
 
+def _pending_start(ctx, master, nz):
+    """The start watchdog freezes a server only for instances that are
+    expected to start there: an instance that runs, is not placed, or sits
+    on a down / unknown server has no pending-start entry when the pass over
+    the instances ends (a stale entry would later freeze a down server and
+    mark the instance for unscheduling, cutting its data retention)."""
+    func = master.methods.get('_check_pending_start')
+    ctx.require(func is not None, 'Master._check_pending_start')
+    graph = ctx.cfg(func)
+    loops = [n for n in graph.nodes if n.kind == 'for' and
+             'cell.apps' in N.txt(n.ast.iter) and
+             isinstance(n.ast.target, ast.Tuple)]
+    ctx.require(loops, 'pass over the instances in _check_pending_start')
+    for loop in loops:
+        name = N.txt(loop.ast.target.elts[0])
+
+        def pops(node, name=name):
+            return any(K.is_meth(c, 'pop') and
+                       K.recv_text(c) == 'self.pending_start' and c.args and
+                       N.txt(c.args[0]) == name for c in C.node_calls(node))
+
+        def not_down(atom):
+            key = atom.key
+            if key[0] == 'cmp' and key[1] == '!=' and len(key[2]) == 2:
+                terms = [t for t, _c in key[2]]
+                return any(t.endswith('State.down') for t in terms) and \
+                    any(t.endswith('.state') for t in terms)
+            if key[0] == 'is' and not key[3]:
+                return key[2].endswith('State.down') and \
+                    key[1].endswith('.state')
+            return False
+        starts = [e.dst for e in loop.succ if e.kind == 'iter']
+        path = None
+        for start in starts:
+            path = K.find_path_cp(
+                graph, start, [loop], cut_node=pops,
+                cut_edge=lambda e: K.edge_establishes(ctx, func, nz, e,
+                                                      not_down),
+                follow_exc=False) if not pops(start) else None
+            if path:
+                break
+        ctx.ob('C08.6', func, loop, path is None,
+               'an instance keeps a pending-start entry only while its '
+               'server is not down; every other end of the iteration drops '
+               'the entry',
+               path=K.describe(path) if path else None,
+               construct='pending-start entry dropped')
+
+
 def _inactive(ctx, rule='C08.1'):
     cell = ctx.index.get_class(K.SCHED, 'Cell')
     func = cell.methods.get('_handle_inactive_servers')
@@ -409,6 +458,7 @@ def _bookkeeping(ctx):
                 ctx.ob('C08.6', func, node, N.txt(val) == st,
                        'state takes the requested value')
     master = index.get_class(K.MASTER, 'Master')
+    _pending_start(ctx, master, nz)
     fr = master.methods.get('_freeze_server')
     ctx.require(fr is not None, 'Master._freeze_server')
     graph = ctx.cfg(fr)
